@@ -260,6 +260,20 @@ fn dup_lit2(_: &mut ZooA) {
     rec("dup_lit2()".into());
 }
 
+/// Steps stamped out by one `macro_rules!` invocation: `line!()` / `column!()` resolve to
+/// that invocation, so they all carry the same `Location` and are still distinct steps.
+macro_rules! stamped {
+    ($($name:ident => $text:literal),*) => {
+        $(
+            #[when($text)]
+            fn $name(_: &mut ZooA) {
+                rec(format!("{}()", stringify!($name)));
+            }
+        )*
+    };
+}
+stamped!(stamped_a => "stamped a", stamped_b => "stamped b", stamped_c => "stamped c");
+
 // ---- ZooB ----------------------------------------------------------------
 
 #[given("a literal step")]
@@ -518,6 +532,9 @@ pub fn entries() -> Vec<Entry> {
             let w = t.strip_prefix("ctxdoc ")?;
             word_chars(w).then(|| Expect::Call(format!("ctx_doc({w},None,[])")))
         }),
+        e(0, When, "stamped_a", |t| (t == "stamped a").then(|| Expect::Call("stamped_a()".into()))),
+        e(0, When, "stamped_b", |t| (t == "stamped b").then(|| Expect::Call("stamped_b()".into()))),
+        e(0, When, "stamped_c", |t| (t == "stamped c").then(|| Expect::Call("stamped_c()".into()))),
         e(1, Given, "b_lit", |t| (t == "a literal step").then(|| Expect::Call("b_lit(7)".into()))),
         e(1, When, "b_re", |t| {
             let n = t.strip_prefix("b ")?;
@@ -570,7 +587,7 @@ pub fn texts(max_tokens: usize) -> Vec<String> {
         "async 7", "async 256", "async x", "result ok", "result err", "result maybe", "alias ok", "alias err", "alias maybe", "io ok", "io err",
         "async result ok", "async result no", "async result two words",
         "parse 12", "parse 300", "parse x", "parse -1", "multi lit", "multi re", "multi expr", "multi", "multi lit ",
-        "ctxdoc w1", "ctxdoc two words", "twice 2", "twice x", "same literal", "same  literal",
+        "stamped a", "stamped b", "stamped c", "stamped d", "ctxdoc w1", "ctxdoc two words", "twice 2", "twice x", "same literal", "same  literal",
         "abc named group", "two words named group", "éa named group", "zoë named group",
         "café 12 crêpes for Chloé", "café 7 crêpes for é", "café 7 crêpes for Zoëé", "cafe 12 crêpes for Chloé",
         "café 99999999999 crêpes for Chloé", "b 12", "b 70000", "b x",
@@ -756,7 +773,7 @@ pub fn run(a: &ShardArgs) -> serde_json::Value {
         "property": "C19", "tier": a.tier,
         "total_configs": txts.len() * 6, "configs_done": counters.0, "configs_skipped_budget": 0,
         "evaluations": counters.0 + reg, "distinct_nontrivial": counters.1,
-        "rule": format!("a zoo of {} attribute instances on 30 functions for 2 Worlds (sync/async, unit/Result, typed args, slice, #[step] / `step` argument, literal / regex = / expr =, custom Parameter with one and several groups, several attributes on one fn, named group) x every text of <= {} tokens over a 12-token alphabet plus positive / near-miss texts of every entry (prefix, suffix, padding, case) x 3 keywords; non-trivial = lookups that dispatch to a function", es.len(), if a.thorough {5} else {3}),
+        "rule": format!("a zoo of {} attribute instances on 33 functions for 2 Worlds (sync/async, unit/Result, typed args, slice, #[step] / `step` argument, literal / regex = / expr =, custom Parameter with one and several groups, several attributes on one fn, named group) x every text of <= {} tokens over a 12-token alphabet plus positive / near-miss texts of every entry (prefix, suffix, padding, case) x 3 keywords; non-trivial = lookups that dispatch to a function", es.len(), if a.thorough {5} else {3}),
         "exhaustive": true,
         "violations": violations, "samples": samples,
     })
